@@ -55,6 +55,33 @@ func c01upOversized() []byte {
 	return b
 }
 
+// a well-formed reply (id, question first.up.test. A, TXT answers) of exactly `size` octets; returns it and the
+// number of its answer records
+func c01upSizedReply(id uint16, size int) ([]byte, int) {
+	v0 := c01upValid(id, c01upFirstName)
+	b := append([]byte(nil), v0[:12+len(c01upWireName(c01upFirstName))+1+4]...)
+	k := 0
+	rec := func(rdlen int) {
+		b = append(b, 0xC0, 12, 0, 16, 0, 1, 0, 0, 0, 60, byte(rdlen>>8), byte(rdlen))
+		for j := 0; j < rdlen; j++ {
+			x := byte('a' + k%26)
+			if j%201 == 0 {
+				x = 200
+			}
+			b = append(b, x)
+		}
+		k++
+	}
+	for size-len(b) >= 2*213 {
+		rec(201)
+	}
+	if rest := size - len(b); rest >= 12 {
+		rec(rest - 12)
+	}
+	b[6], b[7] = byte(k>>8), byte(k)
+	return b, k
+}
+
 func c01upLie(l int, body []byte) []byte {
 	return append([]byte{byte(l >> 8), byte(l)}, body...)
 }
@@ -127,8 +154,8 @@ func c01upExpect(tr string, script []string) string {
 				continue
 			}
 			d := unhex(t[1:])
-			if len(d) > 4096 {
-				d = d[:4096]
+			if len(d) > 65535 {
+				d = d[:65535]
 			}
 			if len(d) == 0 {
 				if delivered {
@@ -137,6 +164,9 @@ func c01upExpect(tr string, script []string) string {
 				return "err"
 			}
 			ok, id, tcb := c01upDecodes(d)
+			if !ok && len(d) >= 12 && d[2]&2 != 0 { // an undecodable TC reply stands for a header-only one
+				ok, id, tcb = true, uint16(d[0])<<8|uint16(d[1]), true
+			}
 			if ok && id == 0 && !delivered {
 				delivered, tc = true, tcb
 			}
@@ -177,7 +207,7 @@ func c01upExpectDoH(tr string, script []string) string {
 			h.header(t)
 		}
 	}
-	if h.sawG || term == "r" || (tr == "h3" && term == "c") {
+	if h.sawG || term == "r" || (tr == "h3" && (term == "c" || h.st < 100 || h.st > 999)) {
 		return "any"
 	}
 	if h.st != 200 {
@@ -459,8 +489,6 @@ func c01upUDPFixed(r *rand.Rand, adv [][]byte) [][2]string {
 		{"one-octet", d(v0[:1])},
 		{"nothing", "p10"},
 		{"big-3000", d(c01upBigReply(0, 3000))},
-		{"big-4096", d(c01upBigReply(0, 4300)[:4096])},
-		{"big-5000-cut-by-read", d(c01upBigReply(0, 5000))},
 		{"big-20000", d(c01upBigReply(0, 20000))},
 		{"many-otherid-then-valid", strings.TrimSuffix(strings.Repeat(d(v7)+",", 40), ",") + "," + d(v0)},
 		{"tc-fallback", d(tc0)},
@@ -472,6 +500,51 @@ func c01upUDPFixed(r *rand.Rand, adv [][]byte) [][2]string {
 		{"tc-fallback-dup2", d(tc0) + "," + tw(frame(v0), frame(v0))},
 		{"tc-otherid", d(func() []byte { b := append([]byte(nil), v7...); b[2] |= 2; return b }())},
 		{"zeros", d(make([]byte, 40))},
+	}
+	// (8cbdefd) valid replies without TC of every size a datagram can have are returned as received
+	for _, size := range []int{512, 1232, 4000, 4095, 4096, 4097, 4098, 5000, 8192, 16384, 32768, 65000, 65506, 65507} {
+		b, _ := c01upSizedReply(0, size)
+		l = append(l, [2]string{"sized-valid/" + strconv.Itoa(size), d(b)})
+	}
+	{
+		b, _ := c01upSizedReply(0, 4000+r.Intn(61507))
+		l = append(l, [2]string{"sized-valid/random", d(b)})
+		b, _ = c01upSizedReply(777, 6000)
+		l = append(l, [2]string{"sized-otherid", d(b)})
+	}
+	// (82eb250) TC replies that do not decode — cut in the middle of a record with the counts of the full answer,
+	// garbage behind the header — are answered by the TCP retry; without TC they are dropped
+	{
+		full, _ := c01upSizedReply(0, 3000)
+		cut := append([]byte(nil), full[:512]...)
+		cut[2] |= 2
+		hdrGar := append(append([]byte(nil), cut[:12]...), 0x3f, 'x', 'y', 0xff, 0xc0)
+		hdrOnly := append([]byte(nil), cut[:12]...) // announces records that are not there
+		eleven := append([]byte(nil), cut[:11]...)
+		noTC := append([]byte(nil), full[:512]...)
+		other := append([]byte(nil), cut...)
+		other[0], other[1] = 3, 9
+		query := append([]byte(nil), cut...)
+		query[2] &^= 0x80 // QR=0 with TC
+		v0f := frame(v0)
+		l = append(l,
+			[2]string{"tc-cut-midrecord", d(cut)},
+			[2]string{"tc-cut-midrecord-tcpvalid", d(cut) + "," + tw(v0f)},
+			[2]string{"tc-cut-midrecord-tcpgarbage", d(cut) + "," + tw(frame(gar))},
+			[2]string{"tc-cut-midrecord-tcpclose", d(cut) + ",Tc"},
+			[2]string{"tc-cut-midrecord-tcplying", d(cut) + "," + tw(c01upLie(65535, v0)) + ",Tc"},
+			[2]string{"tc-garbage-after-header", d(hdrGar)},
+			[2]string{"tc-garbage-after-header-tcpgarbage", d(hdrGar) + "," + tw(frame(gar)) + ",Tc"},
+			[2]string{"tc-header-only-with-counts", d(hdrOnly)},
+			[2]string{"tc-eleven-octets", d(eleven)},
+			[2]string{"cut-midrecord-without-tc", d(noTC)},
+			[2]string{"tc-cut-otherid", d(other)},
+			[2]string{"tc-cut-otherid-then-own", d(other) + "," + d(cut)},
+			[2]string{"tc-cut-qr0", d(query)},
+			[2]string{"tc-cut-then-valid", d(cut) + "," + d(v0)},
+			[2]string{"garbage-then-tc-cut", d(gar) + "," + d(cut)},
+			[2]string{"tc-cut-65507", d(func() []byte { b, _ := c01upSizedReply(0, 65507); b = append([]byte(nil), b...); b[2] |= 2; b[7]++; return b }())},
+		)
 	}
 	for i, a := range adv {
 		b := append([]byte(nil), a...)
@@ -488,6 +561,13 @@ func c01upUDPRandom(r *rand.Rand, adv [][]byte) string {
 	nu := 1 + r.Intn(5)
 	for i := 0; i < nu; i++ {
 		p, _ := c01upPayload(r, adv)
+		if len(p) > 2 && r.Intn(4) == 0 {
+			p = append([]byte(nil), p...)
+			p[2] |= 2
+			if r.Intn(2) == 0 {
+				p = p[:2+r.Intn(len(p)-2)]
+			}
+		}
 		toks = append(toks, "d"+hexs(p))
 		if r.Intn(4) == 0 {
 			toks = append(toks, "p"+strconv.Itoa(5+r.Intn(30)))
